@@ -160,7 +160,7 @@ impl Oracle for C11 {
 }
 
 pub fn run(rep: &Reporter) -> Coverage {
-    let workdir = format!("/verif/.work/{}", std::process::id());
+    let workdir = crate::util::work_dir("w");
     std::fs::create_dir_all(&workdir).expect("workdir");
     let oracle = C11 { roundtrips: AtomicU64::new(0), workdir: workdir.clone() };
     let mut cov = Coverage::default();
@@ -218,7 +218,7 @@ pub fn replay(rep: &Reporter, case: &Value) {
     for o in &hist {
         println!("   {}", o.short());
     }
-    let workdir = format!("/verif/.work/{}", std::process::id());
+    let workdir = crate::util::work_dir("w");
     std::fs::create_dir_all(&workdir).expect("workdir");
     for shrink in [false, true] {
         let (mut store, _) = replay_real(&hist);
